@@ -249,6 +249,24 @@ def dominating_tests(node, stop=None):
     return out
 
 
+def path_atoms(node, stop=None, seg=ast.unparse):
+    """The conjunction of conditions under which `node` executes, as a set of (atom text, polarity):
+    `if a and not b:` (true arm) gives {(a, True), (b, False)}, the false arm of `if a or b:` gives
+    {(a, False), (b, False)}; a test that cannot be split (false arm of an `and`, ...) is kept whole."""
+    out = set()
+
+    def add(test, pol):
+        test, pol = _positive(test, pol)
+        if isinstance(test, ast.BoolOp) and ((isinstance(test.op, ast.And) and pol) or (isinstance(test.op, ast.Or) and not pol)):
+            for v in test.values:
+                add(v, pol)
+        else:
+            out.add((str(seg(test)), pol))
+    for t, pol in dominating_tests(node, stop=stop):
+        add(t, pol)
+    return out
+
+
 def if_arms(node):
     """(test, body-when-true, body-when-false) of an `if`, with `not X` tests turned around"""
     test, body, orelse = node.test, node.body, node.orelse
